@@ -218,6 +218,14 @@ def _vf_b(v: Any) -> bool:
 	return v
 
 
+def _vf_nb(v: Any) -> Any:
+	"""operand of `not` / test of if, while, conditional expression: Python's truth value of an int is C++'s (`!x`, `if (x)`: non-zero),
+	so ints are inside the agreement subset there (and/or stay strict: they return the operand, C++ returns a bool)"""
+	if type(v) not in (bool, int):
+		raise OutOfSubset(f'not/condition on {type(v).__name__}')
+	return v
+
+
 def _vf_idx(c: Any, k: Any) -> Any:
 	if type(c) in (list, str, tuple):
 		# negative indices are ordinary Python; tranp emits them verbatim (C++: out of bounds) — generated only by the probe programs
@@ -303,9 +311,10 @@ def _vf_fn(name: str, *args: Any) -> Any:
 	if name == 'len':
 		return len(args[0])
 	if name == 'range':
-		if len(args) != 1 or type(args[0]) is not int:
-			raise OutOfSubset('range arity')
-		return range(args[0])
+		# range(stop) / range(begin, stop) / range(begin, stop, step) with a positive step: `for (auto i = begin; i < stop; i += step)`
+		if not 1 <= len(args) <= 3 or any(type(a) is not int for a in args) or (len(args) == 3 and args[2] < 1):
+			raise OutOfSubset('range arity / non-positive step')
+		return range(*args)
 	if name == 'enumerate':
 		return enumerate(args[0])
 	raise OutOfSubset(f'builtin {name}')
@@ -342,7 +351,7 @@ class _Instr(ast.NodeTransformer):
 	def visit_UnaryOp(self, n: ast.UnaryOp) -> Any:
 		self.generic_visit(n)
 		if isinstance(n.op, ast.Not):
-			return ast.UnaryOp(ast.Not(), self._call('_vf_b', n.operand))
+			return ast.UnaryOp(ast.Not(), self._call('_vf_nb', n.operand))
 		return self._call('_vf_un', ast.Constant(type(n.op).__name__), n.operand)
 
 	def visit_BoolOp(self, n: ast.BoolOp) -> Any:
@@ -362,17 +371,17 @@ class _Instr(ast.NodeTransformer):
 
 	def visit_IfExp(self, n: ast.IfExp) -> Any:
 		self.generic_visit(n)
-		n.test = self._call('_vf_b', n.test)
+		n.test = self._call('_vf_nb', n.test)
 		return n
 
 	def visit_If(self, n: ast.If) -> Any:
 		self.generic_visit(n)
-		n.test = self._call('_vf_b', n.test)
+		n.test = self._call('_vf_nb', n.test)
 		return n
 
 	def visit_While(self, n: ast.While) -> Any:
 		self.generic_visit(n)
-		n.test = self._call('_vf_b', n.test)
+		n.test = self._call('_vf_nb', n.test)
 		return n
 
 	def visit_Subscript(self, n: ast.Subscript) -> Any:
@@ -475,7 +484,9 @@ def run_python(prog: dict[str, Any], time_limit: float = 3.0) -> dict[tuple[str,
 	except SyntaxError as e:
 		return all_out(f'SyntaxError {e}')
 	ns: dict[str, Any] = {'__name__': '__c01__', '_vf_bin': _vf_bin, '_vf_un': _vf_un, '_vf_b': _vf_b, '_vf_idx': _vf_idx, '_vf_slice': _vf_slice,
-		'_vf_store': _vf_store, '_vf_call': _vf_call, '_vf_fn': _vf_fn, '_vf_cmp': _vf_cmp}
+		'_vf_store': _vf_store, '_vf_call': _vf_call, '_vf_fn': _vf_fn, '_vf_cmp': _vf_cmp,
+		# 'strict_truth' (stream sem): the Lean model `pyEval` claims `not` / `?:` only on bools — narrower than the search's subset
+		'_vf_nb': _vf_b if prog.get('strict_truth') else _vf_nb}
 
 	def on_alarm(*_: Any) -> None:
 		raise _Timeout()
